@@ -75,9 +75,44 @@ fn association_configs() -> Vec<Config> {
     ]
 }
 
+/// Models with an iterative (cross-)association solver, built with NON-DEFAULT iteration limits (2..8 instead of 50):
+/// where the limit is reached the model must report the failure (NaN) for every dual number type alike.
+fn solver_option_configs(full: bool) -> Vec<Config> {
+    use feos::gc_pcsaft::{GcPcSaft, GcPcSaftEosParameters, GcPcSaftOptions};
+    use feos::pcsaft::{PcSaft, PcSaftOptions, PcSaftParameters};
+    use feos::saftvrmie::{SaftVRMie, SaftVRMieOptions, SaftVRMieParameters};
+    use feos_core::parameter::{IdentifierOption, Parameter, ParameterHetero};
+    let mut v = Vec::new();
+    let iters: &[usize] = if full { &[1, 2, 3, 5, 8] } else { &[2, 3] };
+    for &k in iters {
+        for names in [["methanol", "ethanol"], ["methanol", "1-propanol"]] {
+            if let Ok(p) = SaftVRMieParameters::from_json(names.to_vec(), format!("{}/saftvrmie/lafitte2013.json", configs::params()), None, IdentifierOption::Name) {
+                let m = SaftVRMie::with_options(Arc::new(p), SaftVRMieOptions { max_iter_cross_assoc: k, ..Default::default() });
+                v.push(configs::cfg_of(&format!("saftvrmie_{}_{}_maxiter{k}", names[0], names[1]), ResidualModel::SaftVRMie(m), 2, 500.0, true));
+            }
+        }
+        let p = configs::pcsaft_params(&["water", "methanol"], "gross2002.json", None);
+        let m = PcSaft::with_options(Arc::new(p), PcSaftOptions { max_iter_cross_assoc: k, ..Default::default() });
+        v.push(configs::cfg_of(&format!("pcsaft_water_methanol_maxiter{k}"), ResidualModel::PcSaft(m), 2, 600.0, true));
+        if let Ok(p) = GcPcSaftEosParameters::from_json_segments(
+            &["1-propanol", "ethanol"],
+            format!("{}/pcsaft/gc_substances.json", configs::params()),
+            format!("{}/pcsaft/sauer2014_hetero.json", configs::params()),
+            None,
+            IdentifierOption::Name,
+        ) {
+            let m = GcPcSaft::with_options(Arc::new(p), GcPcSaftOptions { max_iter_cross_assoc: k, ..Default::default() });
+            v.push(configs::cfg_of(&format!("gcpcsaft_propanol_ethanol_maxiter{k}"), ResidualModel::GcPcSaft(m), 2, 520.0, true));
+        }
+    }
+    let _ = PcSaftParameters::from_records;
+    v
+}
+
 fn all_configs(full: bool) -> Vec<Config> {
     let mut v = configs::all(full);
     v.extend(association_configs());
+    v.extend(solver_option_configs(full));
     v
 }
 
@@ -327,7 +362,8 @@ impl Oracle {
 }
 
 fn rel_dev(a: f64, b: f64) -> f64 {
-    if a.to_bits() == b.to_bits() {
+    if a.to_bits() == b.to_bits() || (a.is_nan() && b.is_nan()) {
+        // (NaN = "the model reported an error" in every order of evaluation)
         0.0
     } else {
         let sc = a.abs().max(b.abs());
@@ -451,6 +487,16 @@ enum Op {
     Req(usize, Rq),
     Clone(usize),
     Get(usize, Getter),
+    /// a pure evaluator: 0 residual_helmholtz_energy_contributions, 1 pressure_contributions, 2+i residual_chemical_potential_contributions(i)
+    Pure(usize, usize),
+}
+
+fn call_pure_evaluator(st: &St, k: usize) -> usize {
+    match k {
+        0 => st.residual_helmholtz_energy_contributions().len(),
+        1 => st.pressure_contributions().len(),
+        i => st.residual_chemical_potential_contributions(i - 2).len(),
+    }
 }
 
 fn dcoq_txt(s: &str) -> String {
@@ -584,6 +630,9 @@ fn random_pool_history(rng: &mut Rng, alpha: &[Rq], nc: usize, maxlen: usize) ->
             h.push(Op::Clone(s));
             pool += 1;
             total += 1;
+        } else if u < 0.16 {
+            h.push(Op::Pure(s, rng.below(2 + nc)));
+            total += 1;
         } else if u < 0.30 {
             let g = GETTERS[rng.below(GETTERS.len())];
             total += g.requests(nc).len();
@@ -605,6 +654,7 @@ fn op_text(o: &Op) -> String {
         Op::Req(s, r) => format!("{}@{}", r.name(), s),
         Op::Clone(s) => format!("clone@{}", s),
         Op::Get(s, g) => format!("{:?}@{}", g, s),
+        Op::Pure(s, k) => format!("pure{}@{}", k, s),
     }
 }
 
@@ -698,6 +748,11 @@ fn run_config(c: &Config, model_name: &str, rs: &RState, full: bool, rng: &mut R
                         nclones += 1;
                         prim += 1;
                     }
+                    Op::Pure(s, k) => {
+                        let _ = call_pure_evaluator(&pool[*s], *k);
+                        ops_coq.push(format!("GPure {}", s));
+                        prim += 1;
+                    }
                     Op::Get(s, g) => {
                         let gvals = g.call(&pool[*s]);
                         let reqs = g.requests(nc);
@@ -760,6 +815,7 @@ fn consistency_sweep(full: bool, seed: u64, only: &Option<String>) -> Value {
     let cfgs: Vec<Config> = all_configs(full).into_iter().filter(|c| full || c.core).collect();
     let nstates = if full { 6 } else { 2 };
     let mut evaluated = 0usize;
+    let mut error_states = 0usize;
     let mut comparisons = 0usize;
     let mut worst = 0.0f64;
     let mut worst_case = json!(null);
@@ -775,7 +831,8 @@ fn consistency_sweep(full: bool, seed: u64, only: &Option<String>) -> Value {
         }
         let mut rng = Rng(seed ^ trace::fxhash(&c.name) ^ 0x5EE9);
         let mut cw = 0.0f64;
-        for _ in 0..nstates {
+        let ns = if c.name.contains("maxiter") { nstates.max(4) } else { nstates };
+        for _ in 0..ns {
             let rs = configs::sample_state(c, &mut rng);
             let orc = match guard(|| oracle(&c.model, &rs)) {
                 Ok(o) => o,
@@ -785,6 +842,9 @@ fn consistency_sweep(full: bool, seed: u64, only: &Option<String>) -> Value {
                 }
             };
             evaluated += 1;
+            if orc.o0.is_nan() {
+                error_states += 1;
+            }
             let prod = orc.produced();
             let mut sw = 0.0f64;
             let mut sc: Option<(Rq, Rq, f64, f64, String)> = None;
@@ -830,7 +890,7 @@ fn consistency_sweep(full: bool, seed: u64, only: &Option<String>) -> Value {
         }
         per_config.push(json!({"config": c.name, "worst_rel": if cw.is_finite() { json!(cw) } else { json!("inf") }}));
     }
-    json!({"configurations": per_config.len(), "states": evaluated, "comparisons": comparisons,
+    json!({"configurations": per_config.len(), "states": evaluated, "states_where_the_model_reports_an_error_(NaN)": error_states, "comparisons": comparisons,
            "worst_rel": if worst.is_finite() { json!(worst) } else { json!("inf") }, "worst_case": worst_case,
            "per_config": per_config, "states_fraction_dev": all_states, "failures": failures, "panics": panics})
 }
@@ -1285,6 +1345,9 @@ fn parse_op(t: &str) -> Option<Op> {
     if what == "clone" {
         return Some(Op::Clone(s));
     }
+    if let Some(k) = what.strip_prefix("pure") {
+        return k.parse::<usize>().ok().map(|k| Op::Pure(s, k));
+    }
     if let Some(r) = parse_rq(what) {
         return Some(Op::Req(s, r));
     }
@@ -1313,6 +1376,10 @@ fn one(model_name: &str, state: &str, history: &str, extend: bool) -> Value {
             Op::Clone(s) => {
                 let cl = pool[*s].clone();
                 pool.push(cl);
+                steps.push(json!({"op": op_text(o)}));
+            }
+            Op::Pure(s, k) => {
+                let _ = call_pure_evaluator(&pool[*s], *k);
                 steps.push(json!({"op": op_text(o)}));
             }
             Op::Get(s, g) => {
@@ -1347,6 +1414,194 @@ fn one(model_name: &str, state: &str, history: &str, extend: bool) -> Value {
            "density_fraction": density_fraction(c, &rs), "value_tol": value_tol(density_fraction(c, &rs)),
            "worst_rel_dev_from_fresh_state": if worst.is_finite() { json!(worst) } else { json!("inf") },
            "snapshots": pool.iter().map(snap_json).collect::<Vec<_>>()})
+}
+
+// ------------------------------------------------------------------------------------------------
+// the whole public property API of `State` (total properties need an ideal-gas model): every ordered pair
+
+type Eos = feos_core::EquationOfState<feos::ideal_gas::Joback, ResidualModel>;
+type StE = State<Eos>;
+
+struct ApiFn {
+    name: String,
+    /// per the source the function does not go through `get_or_compute_derivative*` (a pure evaluator)
+    cache_free: bool,
+    call: Box<dyn Fn(&StE) -> Vec<f64> + Sync>,
+}
+
+fn api_functions(nc: usize) -> Vec<ApiFn> {
+    use Contributions::{IdealGas as I, Residual as R, Total as T};
+    let mut v: Vec<ApiFn> = Vec::new();
+    macro_rules! add {
+        ($name:expr, $free:expr, $f:expr) => {
+            v.push(ApiFn { name: $name.to_string(), cache_free: $free, call: Box::new($f) })
+        };
+    }
+    macro_rules! scalar_c {
+        ($($m:ident),*) => { $( for (c, cn) in [(T, "Total"), (R, "Residual"), (I, "IdealGas")] {
+            add!(format!("{}({})", stringify!($m), cn), false, move |s: &StE| vec![s.$m(c).to_reduced()]);
+        } )* };
+    }
+    macro_rules! array_c {
+        ($($m:ident),*) => { $( for (c, cn) in [(T, "Total"), (R, "Residual"), (I, "IdealGas")] {
+            add!(format!("{}({})", stringify!($m), cn), false, move |s: &StE| s.$m(c).to_reduced().iter().cloned().collect());
+        } )* };
+    }
+    macro_rules! scalar0 {
+        ($($m:ident),*) => { $( add!(stringify!($m), false, |s: &StE| vec![s.$m().to_reduced()]); )* };
+    }
+    macro_rules! array0 {
+        ($($m:ident),*) => { $( add!(stringify!($m), false, |s: &StE| s.$m().to_reduced().iter().cloned().collect()); )* };
+    }
+    scalar_c!(pressure, dp_dv, dp_drho, dp_dt, d2p_dv2, d2p_drho2, molar_isochoric_heat_capacity, dc_v_dt, molar_isobaric_heat_capacity,
+              entropy, molar_entropy, ds_dt, d2s_dt2, enthalpy, molar_enthalpy, helmholtz_energy, molar_helmholtz_energy, internal_energy,
+              molar_internal_energy, gibbs_energy, molar_gibbs_energy, specific_isochoric_heat_capacity, specific_isobaric_heat_capacity,
+              specific_entropy, specific_enthalpy, specific_helmholtz_energy, specific_internal_energy, specific_gibbs_energy);
+    array_c!(chemical_potential, dmu_dt, dp_dni, dmu_dni);
+    for (c, cn) in [(T, "Total"), (R, "Residual"), (I, "IdealGas")] {
+        add!(format!("compressibility({cn})"), false, move |s: &StE| vec![s.compressibility(c)]);
+    }
+    scalar0!(residual_helmholtz_energy, residual_molar_helmholtz_energy, residual_entropy, residual_molar_entropy, isothermal_compressibility,
+             ds_res_dt, d2s_res_dt2, residual_molar_isochoric_heat_capacity, dc_v_res_dt, residual_molar_isobaric_heat_capacity,
+             residual_enthalpy, residual_molar_enthalpy, residual_internal_energy, residual_molar_internal_energy, residual_gibbs_energy,
+             residual_molar_gibbs_energy, joule_thomson, isentropic_compressibility, isenthalpic_compressibility, thermal_expansivity,
+             speed_of_sound, total_molar_weight, total_mass, mass_density);
+    array0!(partial_molar_entropy, partial_molar_enthalpy, residual_chemical_potential, partial_molar_volume, dmu_res_dt, dln_phi_dt, dln_phi_dp, dln_phi_dnj, mass);
+    add!("structure_factor", false, |s: &StE| vec![s.structure_factor()]);
+    add!("grueneisen_parameter", false, |s: &StE| vec![s.grueneisen_parameter()]);
+    add!("ln_phi", false, |s: &StE| s.ln_phi().to_vec());
+    add!("thermodynamic_factor", false, |s: &StE| s.thermodynamic_factor().iter().cloned().collect());
+    add!("massfracs", false, |s: &StE| s.massfracs().to_vec());
+    // pure evaluators
+    add!("residual_helmholtz_energy_contributions", true, |s: &StE| s.residual_helmholtz_energy_contributions().iter().map(|(_, x)| x.to_reduced()).collect());
+    add!("pressure_contributions", true, |s: &StE| s.pressure_contributions().iter().map(|(_, x)| x.to_reduced()).collect());
+    for i in 0..nc {
+        add!(format!("residual_chemical_potential_contributions({i})"), true, move |s: &StE| {
+            s.residual_chemical_potential_contributions(i).iter().map(|(_, x)| x.to_reduced()).collect()
+        });
+        for (c, cn) in [(T, "Total"), (R, "Residual"), (I, "IdealGas")] {
+            add!(format!("chemical_potential_contributions({i}, {cn})"), true, move |s: &StE| {
+                s.chemical_potential_contributions(i, c).iter().map(|(_, x)| x.to_reduced()).collect()
+            });
+        }
+    }
+    // properties.rs: with Contributions::IdealGas, `get_or_compute_derivative` skips the residual part, so the functions built
+    // from it alone never reach the cache (pressure & co. of residual_properties.rs always evaluate the residual part)
+    let ig_free = ["chemical_potential", "dmu_dt", "molar_isochoric_heat_capacity", "dc_v_dt", "entropy", "molar_entropy", "ds_dt", "d2s_dt2",
+                   "helmholtz_energy", "molar_helmholtz_energy", "internal_energy", "molar_internal_energy", "specific_isochoric_heat_capacity",
+                   "specific_entropy", "specific_helmholtz_energy", "specific_internal_energy"];
+    for f in v.iter_mut() {
+        if let Some(base) = f.name.strip_suffix("(IdealGas)") {
+            if ig_free.contains(&base) {
+                f.cache_free = true;
+            }
+        }
+    }
+    v
+}
+
+fn joback(nc: usize) -> feos::ideal_gas::Joback {
+    use feos::ideal_gas::{Joback, JobackRecord};
+    use feos_core::parameter::{Identifier, Parameter, PureRecord};
+    let recs: Vec<_> = (0..nc)
+        .map(|i| {
+            let k = i as f64;
+            PureRecord::new(Identifier::default(), 1.0, JobackRecord::new(30.0 + 11.0 * k, 0.18 + 0.05 * k, -1.1e-4 + 2e-5 * k, 2.4e-8, -1.0e-12))
+        })
+        .collect();
+    Joback::from_records(recs, None).unwrap()
+}
+
+fn worst_dev(a: &[f64], b: &[f64]) -> f64 {
+    if a.len() != b.len() {
+        return f64::INFINITY;
+    }
+    a.iter().zip(b.iter()).map(|(x, y)| rel_dev(*x, *y)).fold(0.0, f64::max)
+}
+
+/// Every ordered pair (A, B) of public property functions: B evaluated after A on the same state (and on a clone taken after A)
+/// must return what B returns on a fresh state; a pure evaluator must leave the cache exactly as it found it.
+fn api_pairs(c: &Config, rs: &RState, rng: &mut Rng, full: bool) -> Value {
+    let nc = c.ncomp;
+    let eos: Arc<Eos> = Arc::new(feos_core::EquationOfState::new(Arc::new(joback(nc)), c.model.clone()));
+    let mk = || -> StE {
+        State::new_nvt(&eos, Temperature::from_reduced(rs.t), Volume::from_reduced(rs.v), &Moles::from_reduced(Array1::from_vec(rs.n.clone()))).expect("state")
+    };
+    let fns = api_functions(nc);
+    // composite properties (differences and quotients of derivatives) amplify the round-off between dual number types
+    let tol = 1e3 * value_tol(density_fraction(c, rs));
+    let fresh: Vec<Result<Vec<f64>, String>> = fns.iter().map(|f| guard(|| (f.call)(&mk()))).collect();
+    let mut pairs = 0usize;
+    let mut worst = 0.0f64;
+    let mut worst_case = json!(null);
+    let mut failures: Vec<Value> = Vec::new();
+    let mut cache_touched: Vec<Value> = Vec::new();
+    let mut panics: Vec<Value> = Vec::new();
+    let base = json!({"model": c.name, "ideal_gas": "Joback", "state_TVN": rs.vars()});
+    for (ia, a) in fns.iter().enumerate() {
+        if fresh[ia].is_err() {
+            if panics.len() < 3 {
+                panics.push(json!({"config": c.name, "state_TVN": rs.vars(), "where": format!("State::{} on a fresh state", a.name), "panic": fresh[ia].clone().err()}));
+            }
+            continue;
+        }
+        // a pure evaluator leaves the cache untouched
+        if a.cache_free {
+            let st = mk();
+            let _ = guard(|| (a.call)(&st));
+            let (e, h, m) = st.verif_cache_snapshot();
+            if (!e.is_empty() || h != 0 || m != 0) && cache_touched.len() < 5 {
+                cache_touched.push(json!({"function": a.name, "cache_after_the_call": {"entries": e, "hit": h, "miss": m}}));
+            }
+        }
+        for (ib, b) in fns.iter().enumerate() {
+            let fb = match &fresh[ib] {
+                Ok(x) => x,
+                Err(_) => continue,
+            };
+            // the third function of a triple, now and then
+            let mid = if full && rng.below(4) == 0 { Some(rng.below(fns.len())) } else { None };
+            let st = mk();
+            let r = guard(|| {
+                let _ = (a.call)(&st);
+                if let Some(m) = mid {
+                    let _ = (fns[m].call)(&st);
+                }
+                let direct = (b.call)(&st);
+                let on_clone = (b.call)(&st.clone());
+                (direct, on_clone)
+            });
+            pairs += 1;
+            let (direct, on_clone) = match r {
+                Ok(x) => x,
+                Err(e) => {
+                    if panics.len() < 3 {
+                        panics.push(json!({"config": c.name, "state_TVN": rs.vars(), "where": format!("State::{} after State::{}", b.name, a.name), "panic": e}));
+                    }
+                    continue;
+                }
+            };
+            let d = worst_dev(&direct, fb).max(worst_dev(&on_clone, fb));
+            if d > worst {
+                worst = d;
+                worst_case = json!({"first": a.name, "then": b.name, "rel_dev": if d.is_finite() { json!(d) } else { json!("inf") }});
+            }
+            if !(d <= tol) && failures.len() < 6 {
+                let mut f = base.clone();
+                f["history"] = json!([a.name, mid.map(|m| fns[m].name.clone()), b.name]);
+                f["after_history"] = json!(direct);
+                f["after_history_on_a_clone"] = json!(on_clone);
+                f["fresh_state"] = json!(fb);
+                f["rel_dev"] = if d.is_finite() { json!(d) } else { json!("inf") };
+                f["tolerance"] = json!(tol);
+                failures.push(f);
+            }
+        }
+    }
+    json!({"config": c.name, "state_TVN": rs.vars(), "functions": fns.len(), "pure_evaluators": fns.iter().filter(|f| f.cache_free).count(),
+           "ordered_pairs": pairs, "tolerance": tol, "worst_rel": if worst.is_finite() { json!(worst) } else { json!("inf") }, "worst_case": worst_case,
+           "failures": failures, "cache_touched_by_pure_evaluators": cache_touched, "panics": panics,
+           "sample_functions": fns.iter().step_by(17).map(|f| f.name.clone()).collect::<Vec<_>>()})
 }
 
 fn main() {
@@ -1406,9 +1661,26 @@ fn main() {
             }
         }
     }
+    // API-level ordered pairs (total properties: Joback ideal gas)
+    let mut api = Vec::new();
+    let api_names: &[&str] = if full { &["pr2", "pcsaft_propane_butane_kij", "pcsaft_water_methanol", "assoc_c_c", "pets2", "pr3", "pr1"] } else { &["pr2", "pcsaft_propane_butane_kij"] };
+    for name in api_names {
+        if sweep_only || only.as_ref().map(|o| o != name).unwrap_or(false) {
+            continue;
+        }
+        let c = all.iter().find(|c| &c.name == name).expect("config");
+        let mut rng = Rng(cli.seed ^ trace::fxhash(&c.name) ^ 0xA91);
+        for _ in 0..(if full { 2 } else { 1 }) {
+            let rs = configs::sample_state(c, &mut rng);
+            match guard(|| api_pairs(c, &rs, &mut rng, full)) {
+                Ok(v) => api.push(v),
+                Err(e) => panics.push(json!({"config": c.name, "state_TVN": rs.vars(), "where": "API pairs", "panic": e})),
+            }
+        }
+    }
     let sweep = consistency_sweep(full, cli.seed, &only);
     let mut rng = Rng(cli.seed ^ 0x9A7);
     let pp = if cli.opt("--no-par").is_some() { json!(null) } else { par_pure_runs(full, &mut rng, &cli.out, &mut files) };
     cli.write_impl(&json!({"property": "C11", "tier": cli.tier, "seed": cli.seed, "configs": cfgs, "files": files, "par_pure": pp,
-                           "consistency_sweep": sweep, "panics": panics}));
+                           "consistency_sweep": sweep, "api_pairs": api, "panics": panics}));
 }
